@@ -16,6 +16,7 @@ import (
 type TestOnlyViolation struct {
 	Pos         token.Pos
 	TestOnlyObj string // Name of the @testonly object being used
+	ObjPkgPath  string // Package declaring the @testonly type (type usages only)
 	Kind        annotations.TestOnlyKind
 	UsedInFile  string // File where @testonly object is used
 	Reason      string
